@@ -72,7 +72,7 @@ func c01Case(c fileCase, viol func(sig, detail string), r *core.Run) {
 	// declared file size of a dag-pb root
 	if blk, err := model.Load(s, root); err == nil && blk.FS != nil && blk.PB != nil {
 		if blk.FS.Filesize == nil || int(blk.FS.GetFilesize()) != len(content) {
-			viol("declared-filesize "+c.Writer, fmt.Sprintf("%s: root FileSize=%v want %d", c, blk.FS.Filesize, len(content)))
+			viol("declared-filesize "+c.Writer, fmt.Sprintf("%s: root FileSize=%d (present=%v) want %d", c, blk.FS.GetFilesize(), blk.FS.Filesize != nil, len(content)))
 		}
 	}
 	ls := lsFor(s)
